@@ -508,6 +508,17 @@ fn gen(opts: &Opts) -> Vec<Case> {
                 e.visible = false;
             }
         }
+        // now and then two declarations share an operation id (one handler
+        // registered under several paths or methods: dropshot allows it); each
+        // still has its own operation in the document
+        let mut twin_of: Vec<Option<usize>> = vec![None; eps.len()];
+        for i in 1..eps.len() {
+            if rng.chance(1, 5) {
+                let j = rng.below(i);
+                eps[i].id = eps[j].id.clone();
+                twin_of[i] = Some(j);
+            }
+        }
         let mut order2: Vec<usize> = (0..eps.len()).collect();
         rng.shuffle(&mut order2);
         if rng.chance(1, 3) {
@@ -525,8 +536,14 @@ fn gen(opts: &Opts) -> Vec<Case> {
             let k = rng.range(2, POOL.len());
             let start = rng.below(POOL.len());
             let pool: Vec<String> = (0..k).map(|i| POOL[(start + i) % POOL.len()].to_string()).collect();
-            let ep_tags: Vec<Vec<String>> =
+            let mut ep_tags: Vec<Vec<String>> =
                 eps.iter().map(|_| (0..rng.below(4)).map(|_| pool[rng.below(pool.len())].clone()).collect()).collect();
+            // declarations that share an id share their tags (the judge finds an operation's tags by its id)
+            for i in 0..eps.len() {
+                if let Some(j) = twin_of[i] {
+                    ep_tags[i] = ep_tags[j].clone();
+                }
+            }
             let mut cfg: Vec<String> = (0..rng.below(3)).map(|_| POOL[rng.below(POOL.len())].to_string()).collect();
             cfg.sort();
             cfg.dedup();
